@@ -152,6 +152,8 @@ def function_shared(fn):
     for nm in sorted(_code_names(fn.__code__)):
         if nm in g and _optimizer_like(g[nm]):
             out.append("%s:%s" % (nm, type(g[nm]).__name__))
+        elif nm in g and isinstance(g[nm], (dict, list, set)) and not nm.startswith("__"):
+            out.append("container:%s" % nm)       # a module-level mutable table: a place to keep optimizers
     out += ["global:" + nm for nm in sorted(_stored_globals(fn.__code__))]
     for cell in (fn.__closure__ or ()):
         try:
